@@ -628,6 +628,7 @@ class _DaliServerModel:
         self.conns = []
         self.pushed = None
         self.pushed_val = 0
+        self.coalesce = True       # replies to requests written together arrive in one segment (or one each)
 
     def connect(self, target):
         c = _DaliServerConn(self, len(self.conns))
@@ -638,6 +639,7 @@ class _DaliServerModel:
 class _DaliServerConn:
     def __init__(self, model, idx):
         self.model, self.idx, self.queue, self.closed, self.extra = model, idx, [], False, False
+        self.later = []
 
     def send(self, data):
         # (a stream: several 4-byte requests written at once are several requests)
@@ -652,7 +654,10 @@ class _DaliServerConn:
         n = len(self.model.transmissions)
         self.model.transmissions.append((data, self.idx))
         status, val = self.model.outcomes[n]
-        self.queue.extend([2, status, val, 0])
+        if self.queue and not self.model.coalesce:
+            self.later.append([2, status, val, 0])      # a separate segment: arrives once the first was read
+        else:
+            self.queue.extend([2, status, val, 0])
         if self.model.pushed and self.model.pushed[n]:
             # daliserver also pushes what it sees on the bus to every connected client: such a frame arrives
             # in the same segment as the reply (only modelled for per-command connections, where it has to
@@ -665,6 +670,8 @@ class _DaliServerConn:
         if not self.queue:
             raise rigs._env(RuntimeError("recv() with nothing to read: the client would block forever"))
         out, self.queue = self.queue[:n], self.queue[n:]
+        if not self.queue and self.later:
+            self.queue = self.later.pop(0)
         return rigs.mkbytes(out)
 
     def close(self):
@@ -682,6 +689,7 @@ def h_daliserver_history(ctx, n):
         code = ctx.fresh_choice("status%d" % t, 3)
         outcomes.append(([0, 1, 255][code], ctx.fresh("val%d" % t, 0, 255)))
     model = _DaliServerModel(outcomes)
+    model.coalesce = ctx.fresh_bool("replies_in_one_segment")
     if not persistent:
         model.pushed = [ctx.fresh_bool("pushed%d" % t) if t < 2 else False for t in range(2 * n)]
         model.pushed_val = ctx.fresh("pushed_val", 0, 255)
@@ -703,7 +711,7 @@ def h_daliserver_history(ctx, n):
                       "the command was not transmitted once (twice for send-twice)", key=tag + "/transmissions")
             status, val = outcomes[last]
             _check_typed(ctx, cmd, r, {0: "none", 1: "value", 255: "error"}[status], val, tag)
-            ctx.prove(all(not c.queue or c.extra for c in model.conns),
+            ctx.prove(all(not (c.queue or c.later) or c.extra for c in model.conns),
                       "a status message is left unread on the connection (the next command would take it "
                       "for its own)", key=tag + "/unread-status")
         drv.__exit__(None, None, None)
